@@ -25,6 +25,8 @@ def valid_for(name, h):
 
 
 def floats(h, s):
+    if s < 0:
+        return [k / 10 ** (-s) for k in h]       # decimal grid: nearest binary64 to k * 10^s
     return [k * 2.0 ** -s for k in h]
 
 
@@ -100,8 +102,17 @@ def correspondence(res, names, cases, pred=None, also_invalid=True):
             res.evaluations += 1
             if nontrivial_key(h):
                 res.nontrivial.add((name, tuple(h)))
-            reqs.append(model_line(name, h))
-            meta.append(('corr', name, h, s, out))
+            if s >= 0:
+                # exact comparison with the model only on binary grids; on a decimal grid (s < 0) differences of
+                # samples carry rounding error, ties are decided by that error, and only the predicates are evaluated
+                reqs.append(model_line(name, h))
+                meta.append(('corr', name, h, s, out))
+            else:
+                res.stat('decimal_grid_predicate_only')
+                if 'error' in out:
+                    res.failures.append({'signature': f'{res.pid}:{name}:decimal-grid:{out["error"]}:{enc_list(h)}:{s}',
+                                         'clause': 'valid decimal history: ' + out['error'], 'api': API[name], 'input': h,
+                                         'scale': s, 'impl_output': out.get('raw')})
             if pred is not None and 'error' not in out:
                 line = pred(name, h, out)
                 if line:
